@@ -116,7 +116,7 @@ class EffectWatch:
         return name in t or name.split(".")[0] in t
 
     # ---------------------------------------------------------------- one observation
-    def observe(self, fn, data_tokens):
+    def observe(self, fn, data_tokens, tripwire=True):
         """Run fn() under observation.  Returns (outcome, obs) where outcome is ('ret', value) or
         ('exc', exception) and obs the raw observations."""
         import vp_sink
@@ -130,7 +130,7 @@ class EffectWatch:
         mods_before = set(sys.modules)
         dir_before = self._listing()
         self.finder.active = True
-        self.trip_active = True
+        self.trip_active = bool(tripwire)
         try:
             with monitor.Recording() as rec:
                 try:
